@@ -85,6 +85,25 @@ Theorem C33_memoized_result_stable : forall w par, (forall k, wpanic w k = None)
 Proof. exact memoized_result_stable. Qed.
 Print Assumptions C33_memoized_result_stable.
 
+(* ... which is always the id of a Run that has started (ids start at 1), never the zero id of a fresh
+   result object.  A result is the pair Value/Fatal of the Go code as one opaque number: these theorems
+   hold for every wcomp, so for queries that return a fatal error exactly as for those that succeed *)
+Theorem C33_result_run_id_valid : forall w par, (forall k, wpanic w k = None) -> forall inputs,
+  forall s k o, reach w par inputs s -> tmap s k = TRes o -> oclosed (objs s o) = true ->
+  1 <= orun (objs s o) <= nrun s.
+Proof. exact result_run_id_valid. Qed.
+Print Assumptions C33_result_run_id_valid.
+
+(* the step that completes a result leaves it memoized, stamped with the run id of the completing thread,
+   and reports Changed = true to that thread's own caller *)
+Theorem C33_completion_reports_changed : forall w par, (forall k, wpanic w k = None) -> forall inputs,
+  forall s id s' k o, reach w par inputs s -> step w s id = Some s' ->
+  tmap s k = TRes o -> oclosed (objs s o) = false -> oclosed (objs s' o) = true ->
+  tmap s' k = TRes o /\ orun (objs s' o) = trun (thr s' id) /\ 1 <= orun (objs s' o) /\
+  tpc (thr s' id) = PReturn (DVal (oval (objs s' o)) true).
+Proof. exact completion_reports_changed. Qed.
+Print Assumptions C33_completion_reports_changed.
+
 (* non-vacuity: the graph 0 -> [1,2], 1 -> [2] with the arithmetic queries of the harness, two permits:
    Run [0], edit key 2 (which evicts 2, 1 and 0), Run [1], Run [0]: every key is computed once per
    eviction, the last Run recomputes only key 0 and returns 2*147 for inputs 1,2,10 *)
@@ -100,4 +119,28 @@ Example C33_nonvacuous :
   done_keys C33_w s3 = [1; 2] /\ done_keys C33_w s4 = [0; 1; 2] /\
   map (nexec s4) [0; 1; 2] = [1; 1; 1] /\ done_val s4 0 = Some 294%N /\
   tslots (thr s4 (nthr s3)) = [Some (DVal 294%N true)].
+Proof. vm_compute. repeat split; reflexivity. Qed.
+
+(* non-vacuity with failing queries: the same graph, key 2 returns a fatal error of its own while its input
+   is odd (results are 2 * value + 1 when fatal), so keys 1 and 0 fail with it.  Run [2; 0] computes all
+   three: both results are failures and both are Changed, all stamped with run id 1; the second Run gets
+   them from the cache: not Changed, nothing executes; after the edit of key 2 to 10 everything is evicted
+   and the third Run recomputes successes, Changed *)
+Definition C33_wf : world :=
+  {| wn := 3; wdeps := fun _ k => nth k [[[1; 2]]; [[2]]; []] []; wcomp := acompf [(2, (1, 2))];
+     wpanic := fun _ => None; wfix := true |}.
+Definition C33_runf (s : state) (ks : list key) : state := drive C33_wf 300 (start_run s ks).
+Example C33_nonvacuous_failing :
+  let s1 := C33_runf (init 2 (fun k => S k)) [2; 0] in
+  let s2 := C33_runf s1 [0; 2] in
+  let s3 := evict C33_wf (with_inputs s2 (set_inputs (inp s2) [2] [10])) [2] in
+  let s4 := C33_runf s3 [0; 2] in
+  quiescent s1 = true /\ done_keys C33_wf s1 = [0; 1; 2] /\
+  tslots (thr s1 0) = [Some (DVal 7%N true); Some (DVal 3%N true)] /\
+  map (done_val s1) [0; 1; 2] = [Some 3%N; Some 5%N; Some 7%N] /\
+  map (fun k => match tmap s1 k with TRes o => orun (objs s1 o) | _ => 0 end) [0; 1; 2] = [1; 1; 1] /\
+  quiescent s2 = true /\ tslots (thr s2 (nthr s1)) = [Some (DVal 3%N false); Some (DVal 7%N false)] /\
+  map (nexec s2) [0; 1; 2] = [1; 1; 1] /\
+  done_keys C33_wf s3 = [] /\ quiescent s4 = true /\
+  tslots (thr s4 (nthr s3)) = [Some (DVal 294%N true); Some (DVal 20%N true)].
 Proof. vm_compute. repeat split; reflexivity. Qed.
